@@ -181,9 +181,11 @@ def run(ctx):
     ctx.add_exploration('dulprovider.DULServiceProvider._check_network[idle]', idle, res,
                         target='dulprovider.DULServiceProvider._check_network')
 
-    # ------------------------------------------------------------------ (1) the run loop (C03's exploration)
+    # ------------------------------------------------------------------ (1) the run loop and the receive path
+    # (C03's explorations, all of them: peer events reach the machine completely and in order of arrival, the
+    # end of the stream included -- after whatever was received before it)
     from . import c03
-    c03.register_run(ctx, it, res)
+    c03.register_all(ctx, it, res)
 
     def replayer(ctx2, ob_, model):
         from .. import replay
